@@ -54,6 +54,19 @@ Theorem C09_dry_location_independent : forall q e sg cfg files sfiles,
 Proof. exact dry_location_independent. Qed.
 Print Assumptions C09_dry_location_independent.
 
+(* suppression directives inside a file (`# dry: ignore-block`, thailint directives seen by the duplicate-code rule): the stores keyed
+   by a path string are written and read with the same spelling of the path, so a directive is honoured for every working
+   directory and every absolute / relative / dot spelling (key scopes from the source; mixed scopes are refuted by a relative target) *)
+Theorem C09_directive_stores_spelling_independent : forall cwd g, dry_directives_honoured cwd g = true.
+Proof. exact directive_stores_agree. Qed.
+Print Assumptions C09_directive_stores_spelling_independent.
+
+Theorem C09_mixed_key_scopes_refuted :
+  store_hit ScResolvedStr ScGivenStr ["s"; "ok"] (GP false ["proj"; "src"; "mod.py"]) = false
+  /\ store_hit ScResolvedStr ScGivenStr ["s"; "home"] (GP true ["s"; "ok"; "proj"; "src"; "mod.py"]) = true.
+Proof. exact mixed_key_scopes_refuted. Qed.
+Print Assumptions C09_mixed_key_scopes_refuted.
+
 (* the same project at two locations / from two working directories / in two spellings: identical results *)
 Theorem C09_two_locations_agree : forall q sg cfg e1 e2 files1 files2 sfiles,
   flags_off q -> e_root_pats e1 = e_root_pats e2 ->
